@@ -98,7 +98,7 @@ func MintCA(key crypto.Signer, notAfter time.Time) (*x509.Certificate, []byte) {
 	tpl := &x509.Certificate{
 		SerialNumber: big.NewInt(1), Subject: pkix.Name{CommonName: "sim root"},
 		NotBefore: time.Now().Add(-time.Hour), NotAfter: notAfter,
-		IsCA: true, BasicConstraintsValid: true, KeyUsage: x509.KeyUsageCertSign | x509.KeyUsageCRLSign,
+		IsCA: true, BasicConstraintsValid: true, KeyUsage: x509.KeyUsageCertSign | x509.KeyUsageCRLSign | x509.KeyUsageDigitalSignature,
 	}
 	der, err := x509.CreateCertificate(rand.Reader, tpl, tpl, key.Public(), key)
 	if err != nil {
@@ -126,7 +126,7 @@ func MintIntermediate(ca *x509.Certificate, caKey crypto.Signer, key crypto.Sign
 	tpl := &x509.Certificate{
 		SerialNumber: big.NewInt(serial), Subject: pkix.Name{CommonName: "sim intermediate"},
 		NotBefore: time.Now().Add(-time.Hour), NotAfter: notAfter,
-		IsCA: true, BasicConstraintsValid: true, KeyUsage: x509.KeyUsageCertSign | x509.KeyUsageCRLSign,
+		IsCA: true, BasicConstraintsValid: true, KeyUsage: x509.KeyUsageCertSign | x509.KeyUsageCRLSign | x509.KeyUsageDigitalSignature,
 	}
 	der, err := x509.CreateCertificate(rand.Reader, tpl, ca, key.Public(), caKey)
 	if err != nil {
